@@ -140,8 +140,36 @@ def corpus(big=False):
                   [('pdf', '')], tree=t))
     S.append(Spec('label-move-flag', 'maildir "%s/src" {\n\tmatch all label "a" move "%s/dst" flag !new\n}\n' % (R, R), devmap=('%s/dst' % R,)))
     S.append(Spec('pass-chain', 'maildir "%s/src" {\n\tmatch new add-header "X-A" "1" pass\n\tmatch header "X-Id" /2/ label "two" move "%s/dst2"\n\tmatch all flags "T"\n}\n' % (R, R), [('2', '')]))
+    # conditions that ask the operating system while the rules are evaluated (Model/EvalP.lean): `command` = util.c exec(argv, -1)
+    # = open /dev/null, fork, waitpid, close; `isdirectory` = stat of the interpolated path (a failing stat is "no match");
+    # `date modified|created|access` = stat of the message's path (a failing stat is an error).  Several per message, short-circuit.
+    S.append(Spec('cond-command',
+                  'maildir "%s/src" {\n\tmatch command "true" and header "X-Id" /^1$/ move "%s/dst"\n'
+                  '\tmatch command "false" move "%s/dst2"\n'
+                  '\tmatch command { "sh" "-c" "exit 3" } or command { "sh" "-c" "exit 200" } or command { "sh" "-c" "kill -TERM $$" } or new '
+                  'flag !new\n}\n' % (R, R, R), [('^1$', '')]))
+    t = base_tree(2, 1, extra_dirs=('dst', 'dst2', 'box1'))
+    S.append(Spec('cond-isdirectory',
+                  'maildir "%s/src" {\n\tmatch header "X-Id" /([0-9])/ and isdirectory "%s/box\\1" move "%s/box\\1"\n'
+                  '\tmatch isdirectory "%s/nowhere" move "%s/dst2"\n'
+                  '\tmatch isdirectory "%s/conf" or ! isdirectory "%s/dst" move "%s/dst2"\n'
+                  '\tmatch new and isdirectory "%s/dst" flags "F"\n}\n' % (R, R, R, R, R, R, R, R, R), [('([0-9])', '')], tree=t))
+    S.append(Spec('cond-date-file',
+                  'maildir "%s/src" {\n\tmatch date modified > 1 year and header "X-Id" /^1$/ move "%s/dst"\n'
+                  '\tmatch date created > 1 year move "%s/dst2"\n'
+                  '\tmatch date access < 50 years and date modified < 60 years flags "R"\n}\n' % (R, R, R), [('^1$', '')],
+                  env={'TZ': 'UTC'}))
+    t = base_tree(1, 0)
+    t['src/new/9.host'] = MIME
+    S.append(Spec('cond-attachment-command',
+                  'maildir "%s/src" {\n\tmatch attachment command "true" move "%s/dst"\n'
+                  '\tmatch command "false" or isdirectory "%s/dst" flag !new\n}\n' % (R, R, R), tree=t))
     st = {}
     st.update(proc.maildir_tree('dst', {}))
+    # (no `isdirectory` here: a failing stat there is "not a directory", i.e. no match - in stdin mode: exit 0, nothing stored;
+    # the maildir scenario `cond-isdirectory` covers it, judged by the world model)
+    S.append(Spec('stdin-cond', 'stdin {\n\tmatch command "true" and date modified < 1 hour move "%s/dst"\n}\n' % R,
+                  tree=st, stdin=msg(3), args=['-'], kind='stdin'))
     S.append(Spec('stdin-move', 'stdin {\n\tmatch all move "%s/dst"\n}\n' % R, tree=st, stdin=msg(7), args=['-'], kind='stdin'))
     S.append(Spec('stdin-label', 'stdin {\n\tmatch all label "in" move "%s/dst"\n}\n' % R, tree=st, stdin=msg(6, extra=b'X-Label: a\n'), args=['-'], kind='stdin'))
     S.append(Spec('stdin-exdev', 'stdin {\n\tmatch all move "%s/dst"\n}\n' % R, tree=st, stdin=msg(5), args=['-'], kind='stdin', devmap=('%s/tmp' % R,)))
@@ -163,9 +191,9 @@ ERRNOS = {
     'read': ['EIO', 'short', 'EINTR', 'EAGAIN'], 'write': ['ENOSPC', 'short', 'EINTR', 'EIO', 'EDQUOT', 'shorthalf', 'EFBIG'],
     'fprintf': ['ENOSPC'], 'fflush': ['EIO', 'ENOSPC'], 'fsync': ['EIO', 'ENOSPC'], 'fclose': ['EIO', 'ENOSPC'], 'close': ['EIO'],
     'fcntl': ['EMFILE'], 'fdopen': ['ENOMEM'], 'renameat': ['EIO', 'ENOENT', 'EACCES', 'ENOSPC'], 'unlinkat': ['EIO', 'ENOENT', 'EACCES', 'EROFS'],
-    'unlink': ['EIO'], 'fstatat': ['EIO', 'ENOENT'], 'stat': ['EIO'], 'utimensat': ['EPERM', 'EROFS', 'EIO'],
+    'unlink': ['EIO'], 'fstatat': ['EIO', 'ENOENT'], 'stat': ['EACCES', 'EIO', 'ENOENT'], 'utimensat': ['EPERM', 'EROFS', 'EIO'],
     'mkdtemp': ['ENOENT', 'EACCES', 'ENOSPC'], 'mkostemp': ['ENOSPC', 'EACCES'], 'mkstemp': ['ENOSPC'], 'mkdir': ['ENOSPC', 'EEXIST'],
-    'rmdir': ['ENOTEMPTY', 'EBUSY'], 'lseek': ['ESPIPE'], 'fork': ['EAGAIN', 'ENOMEM'], 'waitpid': ['ECHILD', 'EINTR'],
+    'rmdir': ['ENOTEMPTY', 'EBUSY'], 'lseek': ['ESPIPE'], 'fork': ['EAGAIN', 'ENOMEM'], 'waitpid': ['EINTR', 'ECHILD'],
     'closedir': ['EIO'], 'fopen': ['ENOENT', 'EACCES'], 'rewinddir': [],
 }
 
@@ -174,6 +202,19 @@ RETRY = {'read': ['EINTR'], 'write': ['EINTR']}
 # results that say "nothing happened, try again": a program may report them or repeat the call; after a repeat, exit status 0 with
 # the message intact at its final place is correct (the tree oracle still judges the content)
 TRANSIENT = ('EINTR', 'EAGAIN')
+
+
+def isdirectory_stat(call):
+    """Is this traced call the stat(2) of an `isdirectory` condition?  (The other stat mdsort issues during evaluation is the one of
+    the file-time date conditions, on the message's own path below new/ or cur/.)  By the documented meaning - and in
+    expr_eval_stat - `isdirectory` is false when the path cannot be stat'ed, whatever the reason: a failure injected there is not
+    reported, the rules simply go on with the condition false.  Such runs are judged by the world model (Model.mainP along the
+    observed trace: same calls, same final tree, same exit status) and by "no message lost or duplicated", not by "exit status 0
+    only at the place the fault-free run reaches"."""
+    if call.get('name') != 'stat':
+        return False
+    path = proc.unescape(call['args'].get('path', ''))
+    return not re.search(rb'/(new|cur)/[^/]+$', path)
 
 
 def may_retry(name, spec):
